@@ -25,7 +25,8 @@ def NetTree.stationsOn (d : Nat) : NetTree → List Station
   | .mk lan sts rs => if d = lan then sts else rs.stationsOn d
 def Routers.stationsOn (d : Nat) : Routers → List Station
   | .nil => []
-  | .cons _ _ _ _ ds rest => if d ∈ ds.lans then ds.stationsOn d else rest.stationsOn d
+  | .cons _ _ _ _ bf ds rest =>
+      if d ∈ bf.lans then bf.stationsOn d else if d ∈ ds.lans then ds.stationsOn d else rest.stationsOn d
 def Downs.stationsOn (d : Nat) : Downs → List Station
   | .nil => []
   | .cons _ _ sub rest => if d ∈ sub.lans then sub.stationsOn d else rest.stationsOn d
@@ -74,19 +75,19 @@ theorem station_leg (lan : Nat) (s : Station) (sIn : Option (Nat × Mac)) (v : O
     simp [Decision.sends]
 
 /-- a router hearing a frame without DADR on its up port: nothing happens -/
-theorem router_leg (P ua : Nat) (um : Mac) (la : Nat) (c : Cache) (ds : Downs)
+theorem router_leg (P ua : Nat) (um : Mac) (la : Nat) (c : Cache) (bf ds : Downs)
     (sIn : Option (Nat × Mac)) (v : Option Nat) (er : Bool) (prio : Nat) (data : Bytes) (h : Nat) (u : Mac) (lk : Link)
-    (hla : la ∈ ua :: ds.aids) (hs : ∀ s0, sIn = some s0 → s0.1 ≠ P ∧ s0.1 ∉ ds.lans) :
-    delivered (routerNode P ua um la c ds) (mkPort ua um P) ⟨P, u, lk, rtp none sIn v er prio data h⟩ = [] ∧
-    emitted (routerNode P ua um la c ds) (mkPort ua um P) ⟨P, u, lk, rtp none sIn v er prio data h⟩ = [] := by
-  obtain ⟨loc, hloc, _, _⟩ := router_loc P ua um la c ds hla
-  have hsp : spoofed (routerNode P ua um la c ds).node (rtp none sIn v er prio data h) = false := by
+    (hla : la ∈ ua :: (bf.aids ++ ds.aids)) (hs : ∀ s0, sIn = some s0 → s0.1 ≠ P ∧ s0.1 ∉ bf.lans ++ ds.lans) :
+    delivered (routerNode P ua um la c bf ds) (mkPort ua um P) ⟨P, u, lk, rtp none sIn v er prio data h⟩ = [] ∧
+    emitted (routerNode P ua um la c bf ds) (mkPort ua um P) ⟨P, u, lk, rtp none sIn v er prio data h⟩ = [] := by
+  obtain ⟨loc, hloc, _, _⟩ := router_loc P ua um la c bf ds hla
+  have hsp : spoofed (routerNode P ua um la c bf ds).node (rtp none sIn v er prio data h) = false := by
     cases sIn with
     | none => rfl
     | some s0 =>
       simp only [spoofed, rtp]
-      exact router_hasNet P ua um la c ds s0.1 (hs s0 rfl).1 (hs s0 rfl).2
-  have hr : ∃ lrn, route (routerNode P ua um la c ds).node (routerNode P ua um la c ds).cache (mkPort ua um P) u lk
+      exact router_hasNet P ua um la c bf ds s0.1 (hs s0 rfl).1 (hs s0 rfl).2
+  have hr : ∃ lrn, route (routerNode P ua um la c bf ds).node (routerNode P ua um la c bf ds).cache (mkPort ua um P) u lk
       (rtp none sIn v er prio data h) = { learn := lrn } := by
     unfold route
     simp only [hloc, hsp]
@@ -105,20 +106,20 @@ theorem routers_leg (v : Option Nat) (er : Bool) (prio : Nat) (data : Bytes)
           (emitted x.1 x.2 ⟨P, u, lk, rtp none sIn v er prio data h⟩).flatMap (deliverAll topo)) = [] := by
   match rs with
   | .nil => rfl
-  | .cons ua um la c ds rest =>
+  | .cons ua um la c bf ds rest =>
     simp only [Routers.wf, Bool.and_eq_true, decide_eq_true_eq, List.nodup_cons, List.contains_iff_mem] at hwf
-    obtain ⟨⟨⟨⟨_, _⟩, hla⟩, _⟩, hrwf⟩ := hwf
-    have hs1 : ∀ s0, sIn = some s0 → s0.1 ≠ P ∧ s0.1 ∉ ds.lans := by
+    obtain ⟨⟨⟨⟨⟨_, _⟩, hla⟩, _⟩, _⟩, hrwf⟩ := hwf
+    have hs1 : ∀ s0, sIn = some s0 → s0.1 ≠ P ∧ s0.1 ∉ bf.lans ++ ds.lans := by
       intro s0 e
       have := hs s0 e
       simp only [Routers.lans, List.mem_append, not_or] at this
-      exact ⟨this.1, this.2.1⟩
+      exact ⟨this.1, by simpa using this.2.1⟩
     have hs2 : ∀ s0, sIn = some s0 → s0.1 ≠ P ∧ s0.1 ∉ rest.lans := by
       intro s0 e
       have := hs s0 e
       simp only [Routers.lans, List.mem_append, not_or] at this
       exact ⟨this.1, this.2.2⟩
-    obtain ⟨hd, he⟩ := router_leg P ua um la c ds sIn v er prio data h u lk hla hs1
+    obtain ⟨hd, he⟩ := router_leg P ua um la c bf ds sIn v er prio data h u lk hla hs1
     have ih := routers_leg v er prio data sIn topo P rest u h lk hrwf hs2
     simp only [Routers.upEntries, List.filter_cons]
     split
@@ -155,7 +156,7 @@ def rtExpect (d : Nat) (lk : Link) (s0 : Nat × Mac) (er : Bool) (prio : Nat) (d
 /-- the router on network `P` that leads to `d` (its port on `P`) -/
 def Routers.nextHop (d : Nat) : Routers → Option Mac
   | .nil => none
-  | .cons _ um _ _ ds rest => if d ∈ ds.lans then some um else rest.nextHop d
+  | .cons _ um _ _ bf ds rest => if d ∈ bf.lans ++ ds.lans then some um else rest.nextHop d
 
 mutual
 /-- the caches on the path to `d` are consistent with the tree: at every router on the path,
@@ -165,7 +166,9 @@ def NetTree.warm (d : Nat) : NetTree → Bool
   | .mk _ _ rs => rs.warm d
 def Routers.warm (d : Nat) : Routers → Bool
   | .nil => true
-  | .cons _ _ _ c ds rest => (if d ∈ ds.lans then ds.warm c ds.ports d else true) && rest.warm d
+  | .cons _ _ _ c bf ds rest =>
+      (if d ∈ bf.lans then bf.warm c (allPorts bf ds) d
+       else if d ∈ ds.lans then ds.warm c (allPorts bf ds) d else true) && rest.warm d
 def Downs.warm (c : Cache) (all : List Adapter) (d : Nat) : Downs → Bool
   | .nil => true
   | .cons aid mac sub rest =>
@@ -199,26 +202,6 @@ theorem station_lastleg (lan : Nat) (s : Station) (s0 : Nat × Mac) (v : Option 
     simp [Station.adapter]
   · simp only [emitted, hr]
     simp [Decision.sends]
-
-/-- a router hearing a frame without DADR: nothing happens -/
-theorem router_nodadr (P ua : Nat) (um : Mac) (la : Nat) (c : Cache) (ds : Downs)
-    (s0 : Nat × Mac) (v : Option Nat) (er : Bool) (prio : Nat) (data : Bytes) (h : Nat) (u : Mac) (lk : Link)
-    (hla : la ∈ ua :: ds.aids) (hs : s0.1 ≠ P) (hsd : s0.1 ∉ ds.lans) :
-    delivered (routerNode P ua um la c ds) (mkPort ua um P) ⟨P, u, lk, rtp none (some s0) v er prio data h⟩ = [] ∧
-    emitted (routerNode P ua um la c ds) (mkPort ua um P) ⟨P, u, lk, rtp none (some s0) v er prio data h⟩ = [] := by
-  obtain ⟨loc, hloc, _, _⟩ := router_loc P ua um la c ds hla
-  have hsp : spoofed (routerNode P ua um la c ds).node (rtp none (some s0) v er prio data h) = false := by
-    simp only [spoofed, rtp]
-    exact router_hasNet P ua um la c ds s0.1 hs hsd
-  have hr : ∃ lrn, route (routerNode P ua um la c ds).node (routerNode P ua um la c ds).cache (mkPort ua um P) u lk
-      (rtp none (some s0) v er prio data h) = { learn := lrn } := by
-    unfold route
-    simp only [hloc, hsp]
-    simp [classify, rtp, routeGo, routerNode]
-  obtain ⟨lrn, hr⟩ := hr
-  constructor
-  · simp [delivered, hr]
-  · simp [emitted, hr, Decision.sends]
 
 end BacVerif.C06
 
@@ -255,20 +238,8 @@ theorem routers_lastleg (s0 : Nat × Mac) (topo : Topology) (P : Nat) (rs : Rout
     (hwf : rs.wf = true) (hs : s0.1 ≠ P) (hsr : s0.1 ∉ rs.lans) :
     (((rs.upEntries P).filter (fun x => macOk ⟨P, u, lk, rtp none (some s0) v er prio data h⟩ x.2)).flatMap fun x =>
         delivered x.1 x.2 ⟨P, u, lk, rtp none (some s0) v er prio data h⟩ ++
-          (emitted x.1 x.2 ⟨P, u, lk, rtp none (some s0) v er prio data h⟩).flatMap (deliverAll topo)) = [] := by
-  match rs with
-  | .nil => rfl
-  | .cons ua um la c ds rest =>
-    simp only [Routers.lans, List.mem_append, not_or] at hsr
-    simp only [Routers.wf, Bool.and_eq_true, decide_eq_true_eq, List.nodup_cons, List.contains_iff_mem] at hwf
-    obtain ⟨⟨⟨⟨_, _⟩, hla⟩, _⟩, hrwf⟩ := hwf
-    obtain ⟨hd, he⟩ := router_nodadr P ua um la c ds s0 v er prio data h u lk hla hs hsr.1
-    have ih := routers_lastleg s0 topo P rest u h lk hrwf hs hsr.2
-    simp only [Routers.upEntries, List.filter_cons]
-    split
-    · simp only [List.flatMap_cons, hd, he, List.flatMap_nil, List.append_nil, List.nil_append]
-      exact ih
-    · exact ih
+          (emitted x.1 x.2 ⟨P, u, lk, rtp none (some s0) v er prio data h⟩).flatMap (deliverAll topo)) = [] :=
+  routers_leg v er prio data (some s0) topo P rs u h lk hwf (fun s e => by cases e; exact ⟨hs, hsr⟩)
 
 /-- the last leg: a frame without DADR on the destination network reaches exactly the stations it
     is addressed to (`lk`), each once; routers on that network ignore it -/
@@ -391,20 +362,14 @@ end BacVerif.C06
 namespace BacVerif.C06
 open BacVerif BacVerif.Route
 
-theorem router_loc' (P ua : Nat) (um : Mac) (la : Nat) (c : Cache) (ds : Downs)
-    (hla : la ∈ ua :: ds.aids) :
-    ∃ loc, (routerNode P ua um la c ds).node.loc = some loc ∧ loc.addr.isSome ∧
-      (loc = mkPort ua um P ∨ loc ∈ ds.ports) := by
-  obtain ⟨loc, hloc, h1, _⟩ := router_loc P ua um la c ds hla
-  refine ⟨loc, hloc, h1, ?_⟩
-  unfold Node.loc routerNode at hloc
-  have hm := List.mem_of_find?_eq_some hloc
-  simpa using hm
-
-theorem Downs.ports_ne_nil (ds : Downs) (h : ds ≠ .nil) : ds.ports ≠ [] := by
-  cases ds with
-  | nil => exact absurd rfl h
-  | cons aid mac sub rest => simp [Downs.ports]
+theorem allPorts_ne_nil_of_lan (bf ds : Downs) (d : Nat) (h : d ∈ bf.lans ++ ds.lans) : allPorts bf ds ≠ [] := by
+  simp only [List.mem_append] at h
+  cases bf with
+  | cons _ _ _ _ => simp [allPorts, Downs.ports]
+  | nil =>
+    cases ds with
+    | cons _ _ _ _ => simp [allPorts, Downs.ports]
+    | nil => simp [Downs.lans] at h
 
 theorem emitted_of_out (t : TNode) (a : Adapter) (f : Packet) (o : List Out)
     (h : (route t.node t.cache a f.src f.dst f.npci).out = o) :
@@ -415,67 +380,67 @@ theorem emitted_of_out (t : TNode) (a : Adapter) (f : Packet) (o : List Out)
   cases x <;> rfl
 
 /-- a router on the path hearing a routed packet on its up port -/
-theorem router_rt (P ua : Nat) (um : Mac) (la : Nat) (c : Cache) (ds : Downs) (dd : Dadr)
+theorem router_rt (P ua : Nat) (um : Mac) (la : Nat) (c : Cache) (bf ds : Downs) (dd : Dadr)
     (sIn : Option (Nat × Mac)) (v : Option Nat) (er : Bool) (prio : Nat) (data : Bytes) (h : Nat) (u : Mac)
     (lk : Link)
-    (hua : ua ∉ ds.aids) (hla : la ∈ ua :: ds.aids)
-    (hs : ∀ s, sIn = some s → s.1 ≠ P ∧ s.1 ∉ ds.lans)
-    (hgb : dd ≠ .gb) (hdP : dd.net ≠ P) (hh : h ≠ 0) (hne : ds ≠ .nil) (hPd : P ∉ ds.lans)
-    (hmac : ∀ a ∈ ds.ports, a.lan = dd.net → ∀ m, dd = .rs dd.net m → a.mac ≠ m) :
-    delivered (routerNode P ua um la c ds) (mkPort ua um P) ⟨P, u, lk, rtp (some dd) sIn v er prio data h⟩ = [] ∧
-    emitted (routerNode P ua um la c ds) (mkPort ua um P) ⟨P, u, lk, rtp (some dd) sIn v er prio data h⟩ =
-      hopOut c ds.ports dd (rtp (some dd) (some (sIn.getD (P, u))) v er prio data (h - 1)) := by
-  obtain ⟨loc, hloc, hladdr, hlmem⟩ := router_loc' P ua um la c ds hla
-  have hsp : spoofed (routerNode P ua um la c ds).node (rtp (some dd) sIn v er prio data h) = false := by
+    (hua : ua ∉ bf.aids ++ ds.aids) (hla : la ∈ ua :: (bf.aids ++ ds.aids))
+    (hs : ∀ s, sIn = some s → s.1 ≠ P ∧ s.1 ∉ bf.lans ++ ds.lans)
+    (hgb : dd ≠ .gb) (hdP : dd.net ≠ P) (hh : h ≠ 0) (hne : allPorts bf ds ≠ []) (hPd : P ∉ bf.lans ++ ds.lans)
+    (hmac : ∀ a ∈ allPorts bf ds, a.lan = dd.net → ∀ m, dd = .rs dd.net m → a.mac ≠ m) :
+    delivered (routerNode P ua um la c bf ds) (mkPort ua um P) ⟨P, u, lk, rtp (some dd) sIn v er prio data h⟩ = [] ∧
+    emitted (routerNode P ua um la c bf ds) (mkPort ua um P) ⟨P, u, lk, rtp (some dd) sIn v er prio data h⟩ =
+      hopOut c (allPorts bf ds) dd (rtp (some dd) (some (sIn.getD (P, u))) v er prio data (h - 1)) := by
+  obtain ⟨loc, hloc, hladdr, _, hlmem⟩ := router_loc P ua um la c bf ds hla
+  have hsp : spoofed (routerNode P ua um la c bf ds).node (rtp (some dd) sIn v er prio data h) = false := by
     simp only [spoofed, rtp]
     cases sIn with
     | none => rfl
-    | some s => exact router_hasNet P ua um la c ds s.1 (hs s rfl).1 (hs s rfl).2
+    | some s => exact router_hasNet P ua um la c bf ds s.1 (hs s rfl).1 (hs s rfl).2
   have hcl : ∃ pl, classify loc (mkPort ua um P) (rtp (some dd) sIn v er prio data h) = .go pl true := by
     apply classify_transit loc _ dd _ rfl hgb (by simp [mkPort, Ne.symm hdP]) hladdr
     intro hn m hm
     rcases hlmem with rfl | hmem
     · simp [mkPort, Ne.symm hdP] at hn
-    · obtain ⟨_, h2, h3⟩ := Downs.ports_nets ds loc hmem
+    · obtain ⟨_, h2, h3⟩ := allPorts_nets bf ds loc hmem
       rw [h2] at hn
       rw [h3]
       intro e
       exact hmac loc hmem (by simpa using hn) m hm (by simpa using e)
   obtain ⟨pl, hcl⟩ := hcl
-  have hr : ∃ lrn, route (routerNode P ua um la c ds).node (routerNode P ua um la c ds).cache (mkPort ua um P) u lk
+  have hr : ∃ lrn, route (routerNode P ua um la c bf ds).node (routerNode P ua um la c bf ds).cache (mkPort ua um P) u lk
       (rtp (some dd) sIn v er prio data h) =
       { learn := lrn,
-        out := forward (routerNode P ua um la c ds).node
+        out := forward (routerNode P ua um la c bf ds).node
           (learned c (mkPort ua um P) u (rtp (some dd) sIn v er prio data h))
           (mkPort ua um P) u (rtp (some dd) sIn v er prio data h) } := by
     unfold route
     simp only [hloc, hsp, hcl]
     simp [rtp, routeGo, routerNode]
   obtain ⟨lrn, hr⟩ := hr
-  have ho := router_others P ua um la c ds hua
-  have hpne := Downs.ports_ne_nil ds hne
-  have hlen : ((routerNode P ua um la c ds).node.adapters.length == 1) = false := by
-    simp only [routerNode, List.length_cons]
-    cases hp : ds.ports with
-    | nil => exact absurd hp hpne
-    | cons a l => simp
-  have hby : (routerNode P ua um la c ds).node.byNet (some dd.net) = ds.ports.find? (·.net == some dd.net) := by
-    simp only [Node.byNet, routerNode, List.find?_cons, mkPort]
+  have ho := router_others P ua um la c bf ds hua
+  have hlen : ((routerNode P ua um la c bf ds).node.adapters.length == 1) = false := by
+    rw [router_len]
+    cases hp : allPorts bf ds with
+    | nil => exact absurd hp hne
+    | cons a l => rfl
+  have hby : (routerNode P ua um la c bf ds).node.byNet (some dd.net) =
+      (allPorts bf ds).find? (·.net == some dd.net) := by
+    simp only [Node.byNet, routerNode, allPorts, List.find?_append, List.find?_cons, mkPort]
     have : (some P == some dd.net) = false := by simp [Ne.symm hdP]
     simp [this]
-  have hfp : findPath (learned c (mkPort ua um P) u (rtp (some dd) sIn v er prio data h)) ds.ports dd.net =
-      findPath c ds.ports dd.net := by
+  have hfp : findPath (learned c (mkPort ua um P) u (rtp (some dd) sIn v er prio data h)) (allPorts bf ds) dd.net =
+      findPath c (allPorts bf ds) dd.net := by
     apply findPath_learned
     intro a ha
-    obtain ⟨h1, h2, _⟩ := Downs.ports_nets ds a ha
+    obtain ⟨h1, h2, _⟩ := allPorts_nets bf ds a ha
     rw [h2]
     simp only [mkPort, ne_eq, Option.some.injEq]
     intro e
     exact hPd (e ▸ h1)
-  have hf : forward (routerNode P ua um la c ds).node
+  have hf : forward (routerNode P ua um la c bf ds).node
           (learned c (mkPort ua um P) u (rtp (some dd) sIn v er prio data h))
           (mkPort ua um P) u (rtp (some dd) sIn v er prio data h) =
-        fwdRemote (routerNode P ua um la c ds).node
+        fwdRemote (routerNode P ua um la c bf ds).node
           (learned c (mkPort ua um P) u (rtp (some dd) sIn v er prio data h)) (mkPort ua um P)
           (rtp (some dd) (some (sIn.getD (P, u))) v er prio data (h - 1)) dd dd.net := by
     unfold forward
@@ -492,11 +457,11 @@ theorem router_rt (P ua : Nat) (um : Mac) (la : Nat) (c : Cache) (ds : Downs) (d
     | rb d => rfl
   constructor
   · simp [delivered, hr]
-  · have hout : (route (routerNode P ua um la c ds).node (routerNode P ua um la c ds).cache (mkPort ua um P)
+  · have hout : (route (routerNode P ua um la c bf ds).node (routerNode P ua um la c bf ds).cache (mkPort ua um P)
         (⟨P, u, lk, rtp (some dd) sIn v er prio data h⟩ : Packet).src
         (⟨P, u, lk, rtp (some dd) sIn v er prio data h⟩ : Packet).dst
         (⟨P, u, lk, rtp (some dd) sIn v er prio data h⟩ : Packet).npci).out =
-        fwdRemote (routerNode P ua um la c ds).node
+        fwdRemote (routerNode P ua um la c bf ds).node
           (learned c (mkPort ua um P) u (rtp (some dd) sIn v er prio data h)) (mkPort ua um P)
           (rtp (some dd) (some (sIn.getD (P, u))) v er prio data (h - 1)) dd dd.net := by
       simp only []
@@ -505,20 +470,20 @@ theorem router_rt (P ua : Nat) (um : Mac) (la : Nat) (c : Cache) (ds : Downs) (d
     rw [emitted_of_out _ _ _ _ hout]
     unfold fwdRemote hopOut
     rw [hby, ho, hfp]
-    cases hfind : ds.ports.find? (·.net == some dd.net) with
+    cases hfind : (allPorts bf ds).find? (·.net == some dd.net) with
     | some x =>
       have hx := List.mem_of_find?_eq_some hfind
-      have : x.aid ∈ ds.aids := by rw [← Downs.ports_aids]; exact List.mem_map_of_mem hx
+      have := allPorts_aids bf ds x hx
       have hxa : (x.aid == (mkPort ua um P).aid) = false := by
         simp only [mkPort, beq_eq_false_iff_ne]
         intro e; exact hua (e ▸ this)
       simp [hxa, originPackets, rtp]
     | none =>
-      cases hpath : findPath c ds.ports dd.net with
+      cases hpath : findPath c (allPorts bf ds) dd.net with
       | some am => simp [originPackets]
       | none =>
         simp only [originPackets, List.filterMap_map]
-        induction ds.ports with
+        induction allPorts bf ds with
         | nil => rfl
         | cons a l ih => simp [List.filterMap_cons, ih]
 
@@ -530,7 +495,7 @@ open BacVerif BacVerif.Route
 theorem Routers.nextHop_mem (rs : Routers) (d : Nat) (m : Mac) (h : rs.nextHop d = some m) : m ∈ rs.upMacs := by
   match rs with
   | .nil => simp [Routers.nextHop] at h
-  | .cons ua um la c ds rest =>
+  | .cons ua um la c bf ds rest =>
     simp only [Routers.nextHop] at h
     split at h
     · simp at h; simp [Routers.upMacs, h]
@@ -540,7 +505,7 @@ theorem Routers.filter_to_none (rs : Routers) (P : Nat) (f : Packet) (m1 : Mac) 
     (h : m1 ∉ rs.upMacs) : (rs.upEntries P).filter (fun x => macOk f x.2) = [] := by
   match rs with
   | .nil => rfl
-  | .cons ua um la c ds rest =>
+  | .cons ua um la c bf ds rest =>
     simp only [Routers.upMacs, List.mem_cons, not_or] at h
     simp only [Routers.upEntries, List.filter_cons]
     have : macOk f (mkPort ua um P) = false := by
@@ -656,58 +621,107 @@ theorem Routers.rt (rs : Routers) (topo : Topology) (P : Nat) (u : Mac) (h : Nat
       rtExpect dd.net (lastLeg dd) (sIn.getD (P, u)) er prio data (rs.stationsOn dd.net) := by
   match rs with
   | .nil => simp [Routers.lans] at hd
-  | .cons ua um la c ds rest =>
+  | .cons ua um la c bf ds rest =>
+    have hB := hR.before hP hnd
     have hD := hR.downs hP hnd
     have hRr := hR.rest hP hnd
     simp only [Routers.lans, List.mem_append, not_or] at hP hs
-    simp only [Routers.lans, List.nodup_append] at hnd
+    simp only [Routers.lans, List.nodup_append, List.mem_append] at hnd
     simp only [Routers.wf, Bool.and_eq_true, decide_eq_true_eq, List.nodup_cons, List.contains_iff_mem] at hwf
-    obtain ⟨⟨⟨⟨hua, _⟩, hla⟩, hdwf⟩, hrwf⟩ := hwf
+    obtain ⟨⟨⟨⟨⟨hua, _⟩, hla⟩, hbwf⟩, hdwf⟩, hrwf⟩ := hwf
     simp only [Routers.upMacs, List.nodup_cons] at hums
     simp only [Routers.height] at hh
     simp only [Routers.warm, Bool.and_eq_true] at hwarm
     simp only [Routers.nextHop] at hm1
     simp only [Routers.stationsOn] at htgt ⊢
     simp only [Routers.upEntries, List.filter_cons]
-    by_cases hdd : dd.net ∈ ds.lans
-    · simp only [hdd, if_true] at hm1 htgt hwarm ⊢
+    have hsd : ∀ s, sIn = some s → s.1 ≠ P ∧ s.1 ∉ bf.lans ++ ds.lans := by
+      intro s e; subst e; exact ⟨hsP s rfl, by simpa using hs.1⟩
+    have hPd : P ∉ bf.lans ++ ds.lans := by simpa using hP.1
+    by_cases hdb : dd.net ∈ bf.lans
+    · -- the destination lies behind a port bound before the up port
+      have hdd : dd.net ∉ ds.lans := fun hd' => hnd.1.2.2 dd.net hdb dd.net hd' rfl
+      have hin : dd.net ∈ bf.lans ++ ds.lans := by simp [hdb]
+      simp only [hin, hdb, if_true] at hm1 htgt hwarm ⊢
       simp only [Option.some.injEq] at hm1
       subst hm1
       have hmo : macOk ⟨P, u, .to um, rtp (some dd) sIn v er prio data h⟩ (mkPort ua um P) = true := by
         simp [macOk, mkPort]
       simp only [hmo, if_true, List.flatMap_cons]
       rw [Routers.filter_to_none rest P _ um rfl hums.1, List.flatMap_nil, List.append_nil]
-      have hne := Downs.lans_ne_nil ds dd.net hdd
-      have hpos := Downs.height_pos ds hne
-      have hsd : ∀ s, sIn = some s → s.1 ≠ P ∧ s.1 ∉ ds.lans := by
-        intro s e; subst e; exact ⟨hsP s rfl, hs.1⟩
-      have hmac : ∀ a ∈ ds.ports, a.lan = dd.net → ∀ m, dd = .rs dd.net m → a.mac ≠ m := by
+      have hne := allPorts_ne_nil_of_lan bf ds dd.net hin
+      have hpos := Downs.height_pos bf (Downs.lans_ne_nil bf dd.net hdb)
+      have hmac : ∀ a ∈ allPorts bf ds, a.lan = dd.net → ∀ m, dd = .rs dd.net m → a.mac ≠ m := by
         intro a ha hl m hm
         obtain ⟨t, ht, rfl⟩ := htgt m hm
-        exact Downs.port_ne ds dd.net hnd.1 hdwf t ht a ha hl
-      obtain ⟨hdel, hem⟩ := router_rt P ua um la c ds dd sIn v er prio data h u (.to um) hua hla hsd hgb
-        (fun e => hP.1 (e ▸ hdd)) (by omega) hne hP.1 hmac
+        simp only [allPorts, List.mem_append] at ha
+        rcases ha with ha | ha
+        · exact Downs.port_ne bf dd.net hnd.1.1 hbwf t ht a ha hl
+        · exact absurd (hl ▸ (Downs.ports_nets ds a ha).1) hdd
+      obtain ⟨hdel, hem⟩ := router_rt P ua um la c bf ds dd sIn v er prio data h u (.to um) hua hla hsd hgb
+        (fun e => hP.1.1 (e ▸ hdb)) (by omega) hne hPd hmac
       rw [hdel, hem, List.nil_append]
-      exact Downs.rt ds topo (routerNode P ua um la c ds) c ds.ports [] (h - 1) dd (sIn.getD (P, u))
-        hD hnd.1 hdwf hs.1 hgb hdd hwarm.1 (by omega) htgt (by simp) (by simp)
-    · simp only [hdd, if_false] at hm1 htgt hwarm ⊢
-      have hdr : dd.net ∈ rest.lans := by
-        simp only [Routers.lans, List.mem_append] at hd
-        rcases hd with hd | hd
-        · exact absurd hd hdd
-        · exact hd
-      have hne : um ≠ m1 := fun e => hums.1 (e ▸ Routers.nextHop_mem rest dd.net m1 hm1)
-      have hmo : macOk ⟨P, u, .to m1, rtp (some dd) sIn v er prio data h⟩ (mkPort ua um P) = false := by
-        simp [macOk, mkPort, hne]
-      simp only [hmo, Bool.false_eq_true, if_false]
-      exact Routers.rt rest topo P u h dd sIn m1 hRr hP.2 hnd.2.1 hrwf hums.2 hsP hs.2 hgb hdr hm1 hwarm.2
-        (by omega) htgt
-theorem Downs.rt (ds : Downs) (topo : Topology) (r : TNode) (c : Cache) (all pre : List Adapter) (h' : Nat)
+      exact Downs.rt bf topo (routerNode P ua um la c bf ds) c (allPorts bf ds) [] ds.ports (h - 1) dd
+        (sIn.getD (P, u)) hB hnd.1.1 hbwf hs.1.1 hgb hdb hwarm.1 (by omega) htgt (by simp [allPorts]) (by simp)
+        (by
+          intro a ha
+          obtain ⟨h1, h2, _⟩ := Downs.ports_nets ds a ha
+          rw [h2]
+          simp only [ne_eq, Option.some.injEq]
+          intro e
+          exact hdd (e ▸ h1))
+    · by_cases hdd : dd.net ∈ ds.lans
+      · have hin : dd.net ∈ bf.lans ++ ds.lans := by simp [hdd]
+        simp only [hin, hdb, hdd, if_true, if_false] at hm1 htgt hwarm ⊢
+        simp only [Option.some.injEq] at hm1
+        subst hm1
+        have hmo : macOk ⟨P, u, .to um, rtp (some dd) sIn v er prio data h⟩ (mkPort ua um P) = true := by
+          simp [macOk, mkPort]
+        simp only [hmo, if_true, List.flatMap_cons]
+        rw [Routers.filter_to_none rest P _ um rfl hums.1, List.flatMap_nil, List.append_nil]
+        have hne := allPorts_ne_nil_of_lan bf ds dd.net hin
+        have hpos := Downs.height_pos ds (Downs.lans_ne_nil ds dd.net hdd)
+        have hmac : ∀ a ∈ allPorts bf ds, a.lan = dd.net → ∀ m, dd = .rs dd.net m → a.mac ≠ m := by
+          intro a ha hl m hm
+          obtain ⟨t, ht, rfl⟩ := htgt m hm
+          simp only [allPorts, List.mem_append] at ha
+          rcases ha with ha | ha
+          · exact absurd (hl ▸ (Downs.ports_nets bf a ha).1) hdb
+          · exact Downs.port_ne ds dd.net hnd.1.2.1 hdwf t ht a ha hl
+        obtain ⟨hdel, hem⟩ := router_rt P ua um la c bf ds dd sIn v er prio data h u (.to um) hua hla hsd hgb
+          (fun e => hP.1.2 (e ▸ hdd)) (by omega) hne hPd hmac
+        rw [hdel, hem, List.nil_append]
+        exact Downs.rt ds topo (routerNode P ua um la c bf ds) c (allPorts bf ds) bf.ports [] (h - 1) dd
+          (sIn.getD (P, u)) hD hnd.1.2.1 hdwf hs.1.2 hgb hdd hwarm.1 (by omega) htgt (by simp [allPorts])
+          (by
+            intro a ha
+            obtain ⟨h1, h2, _⟩ := Downs.ports_nets bf a ha
+            rw [h2]
+            simp only [ne_eq, Option.some.injEq]
+            intro e
+            exact hdb (e ▸ h1))
+          (by simp)
+      · have hin : dd.net ∉ bf.lans ++ ds.lans := by simp [hdb, hdd]
+        simp only [hin, hdb, hdd, if_false] at hm1 htgt hwarm ⊢
+        have hdr : dd.net ∈ rest.lans := by
+          simp only [Routers.lans, List.mem_append] at hd
+          rcases hd with (hd | hd) | hd
+          · exact absurd hd hdb
+          · exact absurd hd hdd
+          · exact hd
+        have hne : um ≠ m1 := fun e => hums.1 (e ▸ Routers.nextHop_mem rest dd.net m1 hm1)
+        have hmo : macOk ⟨P, u, .to m1, rtp (some dd) sIn v er prio data h⟩ (mkPort ua um P) = false := by
+          simp [macOk, mkPort, hne]
+        simp only [hmo, Bool.false_eq_true, if_false]
+        exact Routers.rt rest topo P u h dd sIn m1 hRr hP.2 hnd.2.1 hrwf hums.2 hsP hs.2 hgb hdr hm1 hwarm.2
+          (by omega) htgt
+theorem Downs.rt (ds : Downs) (topo : Topology) (r : TNode) (c : Cache) (all pre post : List Adapter) (h' : Nat)
     (dd : Dadr) (s0 : Nat × Mac)
     (hD : HD topo ds r) (hnd : ds.lans.Nodup) (hwf : ds.wf = true) (hs : s0.1 ∉ ds.lans)
     (hgb : dd ≠ .gb) (hd : dd.net ∈ ds.lans) (hwarm : ds.warm c all dd.net = true) (hh : ds.height ≤ h' + 1)
     (htgt : ∀ m, dd = .rs dd.net m → ∃ t ∈ ds.stationsOn dd.net, t.mac = m)
-    (hall : all = pre ++ ds.ports) (hpre : ∀ a ∈ pre, a.net ≠ some dd.net) :
+    (hall : all = pre ++ ds.ports ++ post) (hpre : ∀ a ∈ pre, a.net ≠ some dd.net)
+    (hpost : ∀ a ∈ post, a.net ≠ some dd.net) :
     (hopOut c all dd (rtp (some dd) (some s0) v er prio data h')).flatMap (deliverAll topo) =
       rtExpect dd.net (lastLeg dd) s0 er prio data (ds.stationsOn dd.net) := by
   match ds with
@@ -728,7 +742,7 @@ theorem Downs.rt (ds : Downs) (topo : Topology) (r : TNode) (c : Cache) (all pre
       by_cases hroot : dd.net = sub.lan
       · -- the destination network is directly connected: last leg
         have hfind : all.find? (·.net == some dd.net) = some (mkPort aid mac sub.lan) := by
-          rw [hall, List.find?_append]
+          rw [hall, List.append_assoc, List.find?_append]
           have : pre.find? (·.net == some dd.net) = none := by
             apply List.find?_eq_none.mpr
             intro a ha
@@ -771,8 +785,8 @@ theorem Downs.rt (ds : Downs) (topo : Topology) (r : TNode) (c : Cache) (all pre
           have hfind : all.find? (·.net == some dd.net) = none := by
             apply List.find?_eq_none.mpr
             intro a ha
-            rw [hall, List.mem_append, List.mem_cons] at ha
-            rcases ha with ha | rfl | ha
+            rw [hall, List.mem_append, List.mem_append, List.mem_cons] at ha
+            rcases ha with (ha | rfl | ha) | ha
             · simpa using hpre a ha
             · simp [mkPort, Ne.symm hroot]
             · obtain ⟨h1, h2, _⟩ := Downs.ports_nets rest a ha
@@ -780,6 +794,7 @@ theorem Downs.rt (ds : Downs) (topo : Topology) (r : TNode) (c : Cache) (all pre
               simp only [beq_iff_eq, Option.some.injEq]
               intro e
               exact hdr (e ▸ h1)
+            · simpa using hpost a ha
           simp only [hopOut, hfind, hw1, List.flatMap_cons, List.flatMap_nil, List.append_nil, mkPort]
           have := NetTree.rt sub topo _ mac h' dd (some s0) m' hTs (by simp [mkPort]) hnd.1 hwf.1
             (fun s e => by cases e; exact hs.1) hgb hsubr hnh hw2 (by omega) htgt
@@ -789,7 +804,7 @@ theorem Downs.rt (ds : Downs) (topo : Topology) (r : TNode) (c : Cache) (all pre
         simp only [Downs.lans, List.mem_append] at hd
         exact hd.resolve_left hds
       have hne : sub.lan ≠ dd.net := fun e => hds (e ▸ sub.lan_mem_lans)
-      exact Downs.rt rest topo r c all (pre ++ [mkPort aid mac sub.lan]) h' dd s0 hDr hnd.2.1 hwf.2 hs.2 hgb hdr
+      exact Downs.rt rest topo r c all (pre ++ [mkPort aid mac sub.lan]) post h' dd s0 hDr hnd.2.1 hwf.2 hs.2 hgb hdr
         hwarm.2 (by omega) htgt (by rw [hall]; simp)
         (by
           intro a ha
@@ -797,6 +812,7 @@ theorem Downs.rt (ds : Downs) (topo : Topology) (r : TNode) (c : Cache) (all pre
           rcases ha with ha | rfl
           · exact hpre a ha
           · simp [mkPort, hne])
+        hpost
 end
 
 end
@@ -894,12 +910,14 @@ theorem Routers.stationsOn_nodup (rs : Routers) (hwf : rs.wf = true) (d : Nat) :
     ((rs.stationsOn d).map (·.mac)).Nodup := by
   match rs with
   | .nil => simp [Routers.stationsOn]
-  | .cons ua um la c ds rest =>
+  | .cons ua um la c bf ds rest =>
     simp only [Routers.wf, Bool.and_eq_true] at hwf
     simp only [Routers.stationsOn]
     split
-    · exact Downs.stationsOn_nodup ds hwf.1.2 d
-    · exact Routers.stationsOn_nodup rest hwf.2 d
+    · exact Downs.stationsOn_nodup bf hwf.1.1.2 d
+    · split
+      · exact Downs.stationsOn_nodup ds hwf.1.2 d
+      · exact Routers.stationsOn_nodup rest hwf.2 d
 theorem Downs.stationsOn_nodup (ds : Downs) (hwf : ds.wf = true) (d : Nat) :
     ((ds.stationsOn d).map (·.mac)).Nodup := by
   match ds with
